@@ -64,7 +64,7 @@ func (w *worker) kill() {
 
 func opTimeout(op string) time.Duration {
 	switch strings.SplitN(op, " ", 2)[0] {
-	case "live", "udfsrv":
+	case "live", "udfsrv", "udfwrite":
 		return 40 * time.Second
 	}
 	return 15 * time.Second
